@@ -76,6 +76,25 @@ func runC03(c *Ctx, idx int) {
 		}
 		c.Count("scenarios.modular_start_genome", 1)
 	}
+	if idx%32 == 17 {
+		// a large population in which every baby adds a link to a genome with a few hundred open node pairs: hundreds of
+		// innovations are recorded within one generation and most later ones repeat an earlier one (sequential executor)
+		sp := genSpec(r)
+		sp.Inputs, sp.Hidden, sp.Outputs = 10+r.Intn(4), 3+r.Intn(3), 8+r.Intn(4)
+		sp.GeneProb = 0.12
+		sc.Ctor, sc.Start, sc.StartSrc = ctorSpawn, buildGenome(r, sp, 1), "built: many open node pairs"
+		sc.Opts.PopSize = 500 + r.Intn(300)
+		sc.Opts.BabiesStolen = 0
+		sc.Opts.MutateOnlyProb = 1
+		sc.Opts.MutateAddLinkProb = 1
+		sc.Opts.MutateAddNodeProb = 0
+		sc.Opts.NewLinkTries = 50
+		sc.Opts.CompatThreshold = 1e6
+		sc.Parallel = false
+		sc.RestoreAt = 0
+		sc.Epochs = 2
+		c.Count("scenarios.hundreds_of_innovations_per_generation", 1)
+	}
 	mon := &innovMonitor{links: map[int64]linkKey{}, roles: map[int]byte{}}
 	runScenario(c, sc, mon)
 }
